@@ -1,4 +1,4 @@
-//go:build verif && (all || c01 || c02 || c03 || c07 || c08 || c09 || c10 || c11 || c14 || c16 || c17 || c34 || c35)
+//go:build verif && (all || c01 || c02 || c03 || c07 || c08 || c09 || c10 || c11 || c14 || c16 || c17 || c34 || c35 || c15)
 
 package main
 
